@@ -357,7 +357,45 @@ func TestC05_CritShapes(t *testing.T) {
 			}
 		}
 	}
-	stats.ExhaustivePart("crit value shapes x layers", n)
+	// crit entry vs label kind: one label L present, crit names a label E that is a different label but looks the same
+	// once text is read as a number, the empty text as zero, or a number is reduced (all pairs of the list, E != L)
+	looks := []rc.Val{rc.Int(0), rc.Text(""), rc.Text("0"), rc.Int(4), rc.Text("4"), rc.Text("04"), rc.Text(" 4"), rc.Text("+4"), rc.Int(-1), rc.Text("-1"), rc.Int(1), rc.Text("1"),
+		rc.Int(260), rc.Text("260"), rc.Int(65540), rc.Int(-252), rc.Int(1<<32 + 4), rc.Text("\x04"), rc.Text("kid")}
+	for _, present := range looks {
+		for _, entry := range looks {
+			if rc.Equal(present, entry) {
+				continue
+			}
+			pm := rc.Map(rc.E(rc.Int(1), rc.Int(-7)))
+			if i, ok := present.Int64(); !(ok && present.K == rc.KInt && i == 1) {
+				pm.M = append(pm.M, rc.E(present, rc.Bytes([]byte("k"))))
+			}
+			if i, ok := entry.Int64(); ok && entry.K == rc.KInt && i == 1 {
+				continue // alg is there
+			}
+			pm.M = append(pm.M, rc.E(rc.Int(2), rc.Array(entry)))
+			prot := rc.Encode(rc.Bytes(rc.Encode(pm, nil)), nil)
+			layer := func(p []byte) []byte { return append(append(append([]byte{0x83}, p...), 0xa0), 0x41, 0x01) }
+			inputs := map[refcose.Kind][][]byte{
+				refcose.KProtected:        {prot},
+				refcose.KSign1:            {append(append(append([]byte{0xd2, 0x84}, prot...), 0xa0, 0x41, 0x70), 0x41, 0x01), append(append([]byte{0xd2, 0x84, 0x40, 0xa1, 0x0b}, layer(prot)...), 0x41, 0x70, 0x41, 0x01)},
+				refcose.KSign1Untagged:    {append(append(append([]byte{0x84}, prot...), 0xa0, 0x41, 0x70), 0x41, 0x01)},
+				refcose.KSign:             {append(append(append([]byte{0xd8, 0x62, 0x84}, prot...), 0xa0, 0x41, 0x70, 0x81), layer([]byte{0x40})...), append([]byte{0xd8, 0x62, 0x84, 0x40, 0xa0, 0x41, 0x70, 0x81}, layer(prot)...)},
+				refcose.KSignature:        {layer(prot)},
+				refcose.KCountersignature: {layer(prot)},
+			}
+			for _, k := range allKinds {
+				for _, w := range inputs[k] {
+					n++
+					stats.Eval()
+					stats.NTBytes(w)
+					stats.Class("crit-entry-vs-label-kind")
+					judge(t, "c05", mutCase{SeedKind: k, Wire: w, Muts: []gen.Mutation{{Op: "crit-entry/" + entry.String() + "/present/" + present.String()}}}, checkC05)
+				}
+			}
+		}
+	}
+	stats.ExhaustivePart("crit value shapes x layers; crit entry vs look-alike present label x layers", n)
 }
 
 // TestC05_NestedKeys: header values (label 99, either bucket, every layer kind) that hold maps keyed by arrays or
